@@ -12,7 +12,7 @@ TRUSTED = [
     "translator rs2v module `layouts`: every parse_from_block4 body as a program in the layout IR (Engine/Layout.v); fails on any statement that mentions the parser and is not recognised",
     "hand model of MessageParser (Engine/Layout.v) and field_extractor.rs (Engine/Extract.v), tied by the stream `msg`: extracted byte-level model vs library on seeds and mutants, outcome class + predicted serialisation compared",
     "field parsers are a parameter of the theorem (any fparse); in the correspondence run the table of the real parsers' answers is supplied per case",
-    "the theorem is at token level (Engine/Tokens.v); that the byte-level cursor (find / trim based) realises the token cursor is checked by the correspondence stream, not proved",
+    "token level (Engine/Tokens.v) and, since Engine/Factor.v, byte level: the transcribed byte cursor (find / trim based) is PROVED to read a canonical text (leading white space, ':tag:content' + LF/CRLF per field, no content line starting with ':' or '-', no '-}', no trailing line end) as the token cursor reads the token list; the run counts how many of its texts fall in that class (stats *_texts_in_exec_factor_class, decided by the extracted predicate); for the other texts and for the transcription of field_extractor.rs itself the tie is the correspondence stream",
     "extraction: ExtrOcamlBasic only; OCaml driver runner/main.ml",
 ]
 
